@@ -94,8 +94,10 @@ func SpringCheck(classes []*springgen.Class, observed []SpringEntry, view string
 		byKey[e.Key()] = append(byKey[e.Key()], e)
 	}
 	type silent struct {
-		c *springgen.Class
-		m *springgen.Member
+		c     *springgen.Class
+		m     *springgen.Member
+		other *springgen.OtherType // method of a nested / second top-level class of c's file
+		name  string
 	}
 	silentByKey := map[string]silent{}
 	claimed := map[string]bool{}
@@ -115,14 +117,20 @@ func SpringCheck(classes []*springgen.Class, observed []SpringEntry, view string
 		if !c.Controller {
 			st.NonControllerCls++
 		}
+		for _, ot := range c.OtherTypes() {
+			for _, mn := range ot.Methods {
+				st.SilentMembers++
+				silentByKey[c.Package+"."+ot.Name+"."+mn] = silent{c: c, other: ot, name: mn}
+			}
+		}
 		for _, m := range c.Members {
 			key := c.Package + "." + c.Name + "." + m.Name
 			switch m.Kind {
-			case springgen.KindField, springgen.KindCtor:
+			case springgen.KindField, springgen.KindCtor, springgen.KindNested:
 				continue
 			case springgen.KindMethod, springgen.KindCarrier:
 				st.SilentMembers++
-				silentByKey[key] = silent{c, m}
+				silentByKey[key] = silent{c: c, m: m}
 				continue
 			}
 			// planted handler
@@ -132,7 +140,28 @@ func SpringCheck(classes []*springgen.Class, observed []SpringEntry, view string
 			got := byKey[key]
 			desc := fmt.Sprintf("%s %s in %s [%s, %s]", mp.Text, m.Name, c.Name, strings.Join(c.ClassAnnos, " "), orderWord(c))
 			if len(got) == 0 {
-				add(fmt.Sprintf("missing-handler/%s/%s/class-mapping=%s", mp.Anno, mp.Form, c.ClassMap), "no entry for planted handler %s", desc)
+				// reported under the name of another class declared in the same file?
+				found := false
+				for _, ot := range c.OtherTypes() {
+					k2 := c.Package + "." + ot.Name + "." + m.Name
+					if es := byKey[k2]; len(es) > 0 && !claimed[k2] {
+						if _, isOwn := silentByKey[k2]; isOwn {
+							continue
+						}
+						claimed[k2] = true
+						found = true
+						add("handler-class/name-of-another-class-of-the-file/"+ot.Where, "handler %s is listed as %v: %s is a class declared in the same file (%s), the handler belongs to %s", desc, es, ot.Name, ot.Where, c.Name)
+						break
+					}
+				}
+				if found {
+					continue
+				}
+				sig := fmt.Sprintf("missing-handler/%s/%s/class-mapping=%s", mp.Anno, mp.Form, c.ClassMap)
+				if m.AfterNested {
+					sig = "missing-handler/declared-after-a-nested-class"
+				}
+				add(sig, "no entry for planted handler %s", desc)
 				continue
 			}
 			if len(got) > 1 {
@@ -199,6 +228,10 @@ func SpringCheck(classes []*springgen.Class, observed []SpringEntry, view string
 		es := byKey[key]
 		if s, ok := silentByKey[key]; ok {
 			c, m := s.c, s.m
+			if s.other != nil {
+				add("extra/method-of-"+s.other.Where+"-class", "%d entr(y/ies) %v for %s.%s: %s is a class without mapping annotations declared in the file of %s", len(es), es, s.other.Name, s.name, s.other.Name, c.Name)
+				continue
+			}
 			pos := "later-method"
 			if m.FirstMethodOfClass {
 				pos = "first-method-of-class"
